@@ -99,7 +99,10 @@ func (w *world) value(c *schema.Case, op *schema.Op, tag string, alt bool) value
 	case "any":
 		return ir.NewParam(tag, t)
 	case "const":
-		if op.CV >= 0 { // constant struct index of a getelementptr: must stay a valid field number
+		if op.VC != "" && !alt {
+			return w.classConst(t, op.VC, tag, nil)
+		}
+		if op.CV >= 0 && op.VC == "" { // constant struct index of a getelementptr: must stay a valid field number
 			it := t.(*types.IntType)
 			if alt && (c.Cls == "struct" || c.Cls == "nstruct") && op.CV == 1 {
 				return constant.NewInt(it, 0)
@@ -107,7 +110,7 @@ func (w *world) value(c *schema.Case, op *schema.Op, tag string, alt bool) value
 			return constant.NewInt(it, int64(op.CV)) // a fresh object with the same text where no other index is valid
 		}
 		return w.constOf(t, w.n, tag)
-	case "block":
+	case "block", "blockval": // blockval: a block passed as a value (label-typed argument / bundle input), not a target
 		return w.F.NewBlock(tag)
 	case "func":
 		ft := w.tc.Type(op.Ty.E).(*types.FuncType)
@@ -144,8 +147,94 @@ func (w *world) value(c *schema.Case, op *schema.Op, tag string, alt bool) value
 	return nil
 }
 
+// classConst returns a constant of value class vc (Schema.tla, VClasses) and type t. target is the
+// block a "blockaddr" constant takes the address of.
+func (w *world) classConst(t types.Type, vc, tag string, target *ir.Block) constant.Constant {
+	lit := func(t types.Type, v int64) constant.Constant {
+		mk := func(t types.Type) constant.Constant {
+			it := t.(*types.IntType)
+			if it.BitSize == 1 {
+				return constant.NewBool(v != 0)
+			}
+			return constant.NewInt(it, v)
+		}
+		if vt, ok := t.(*types.VectorType); ok {
+			var es []constant.Constant
+			for i := 0; i < int(vt.Len); i++ {
+				es = append(es, mk(vt.ElemType))
+			}
+			return constant.NewVector(vt, es...)
+		}
+		return mk(t)
+	}
+	g := func() *ir.Global { return ir.NewGlobal(tag+"g", types.I32) }
+	switch vc {
+	case "lit0":
+		return lit(t, 0)
+	case "lit1":
+		return lit(t, 1)
+	case "lit":
+		return w.constOf(t, w.n, tag)
+	case "null":
+		return constant.NewNull(t.(*types.PointerType))
+	case "zero":
+		return constant.NewZeroInitializer(t)
+	case "undef":
+		return constant.NewUndef(t)
+	case "poison":
+		return constant.NewPoison(t)
+	case "global":
+		return ir.NewGlobal(tag, t.(*types.PointerType).ElemType)
+	case "blockaddr":
+		if target == nil {
+			target = w.F.NewBlock(tag + "b")
+		}
+		return constant.NewBlockAddress(w.F, target)
+	case "expr":
+		switch t := t.(type) {
+		case *types.IntType:
+			return constant.NewPtrToInt(g(), t)
+		case *types.FloatType:
+			n := uint64(32)
+			if t.Kind == types.FloatKindDouble {
+				n = 64
+			}
+			return constant.NewBitCast(constant.NewPtrToInt(g(), types.NewInt(n)), t)
+		case *types.PointerType:
+			if types.Equal(t.ElemType, types.I32) {
+				return constant.NewGetElementPtr(types.I32, g(), constant.NewInt(types.I64, 1))
+			}
+			return constant.NewBitCast(g(), t)
+		case *types.VectorType:
+			a, b := w.constOf(t, 1, tag+"a"), w.constOf(t, 2, tag+"b")
+			switch t.ElemType.(type) {
+			case *types.IntType:
+				return constant.NewAdd(a, b)
+			case *types.FloatType:
+				return constant.NewFNeg(a)
+			}
+			return a
+		}
+	}
+	mbt.Infra("spec gap: value class %q of type %s has no binding", vc, t)
+	return nil
+}
+
 func (w *world) markers(c *schema.Case) []value.Value {
 	out := make([]value.Value, len(c.Ops))
+	defer func() {
+		// the address of one of the destinations (needs the marker of the destination)
+		for i := range c.Ops {
+			if c.Ops[i].VC == "blockaddr" {
+				for j := range c.Ops {
+					if b, ok := out[j].(*ir.Block); ok && c.Ops[j].Src == "block" {
+						out[i] = w.classConst(w.tc.Type(&c.Ops[i].Ty), "blockaddr", "", b)
+						break
+					}
+				}
+			}
+		}
+	}()
 	for i := range c.Ops {
 		if i < len(c.Alias) && c.Alias[i] != i+1 {
 			out[i] = out[c.Alias[i]-1] // the "alias" family: two operands hold the same value (repeated branch target)
@@ -181,15 +270,16 @@ type caseRec struct {
 }
 
 type checker struct {
-	rep        *mbt.Report
-	tabs       *schema.Tables
-	unbuild    int
-	orderDiff  map[string]bool
-	reflected  map[string]bool
-	slotsSeen  int
-	writesSeen int
-	configs    map[string]*schema.Case // "config" family: kind/cnt/bund -> case (neighbouring configurations for edits)
-	frames     int
+	rep         *mbt.Report
+	tabs        *schema.Tables
+	unbuild     int
+	orderDiff   map[string]bool
+	reflected   map[string]bool
+	slotsSeen   int
+	writesSeen  int
+	classWrites int
+	configs     map[string]*schema.Case // "config" family: kind/cnt/bund -> case (neighbouring configurations for edits)
+	frames      int
 }
 
 func cfgKey(kind string, cnt, bund []int) string { return fmt.Sprintf("%s/%v/%v", kind, cnt, bund) }
@@ -327,6 +417,7 @@ func (ck *checker) checkCase(c *schema.Case) {
 		*ops2[k] = repl
 		got, msg, p := text(u2)
 		rep.Count("write:"+c.ID()+":"+c.Ops[i].Key(), true)
+		ck.succsUnmoved(u2, c, ms2, i, repl, "a fresh value")
 		switch {
 		case p:
 			ck.fail("C15|write|"+c.Kind+"|"+c.Ops[i].Role+"|print-panics", fmt.Sprintf("%s: LLString() panics after writing %s through the slot of %s: %s", c.Kind, repl.Ident(), c.Ops[i].Key(), msg), c)
@@ -342,6 +433,49 @@ func (ck *checker) checkCase(c *schema.Case) {
 				fmt.Sprintf("%s: after writing %s through the slot of %s: got %q, want %q", c.Kind, repl.Ident(), c.Ops[i].Key(), got, want), c)
 		}
 	}
+	// value classes: every operand that admits any value is overwritten, through its slot, with a constant
+	// of every class of its type; the instruction must print like the one built with that constant and
+	// the successor list must not move
+	if c.Fam == "config" || c.Fam == "labelarg" {
+		for i := range c.Ops {
+			if c.Ops[i].Src != "any" || slotOf[i] < 0 {
+				continue
+			}
+			for _, vc := range ck.vclassesOf(&c.Ops[i].Ty) {
+				w2 := newWorld()
+				ms2 := w2.markers(c)
+				u2, _, p := build(w2, c, ms2)
+				if p {
+					continue
+				}
+				var repl value.Value
+				if msg, p := mbt.Guard(func() { repl = w2.classConst(w2.tc.Type(&c.Ops[i].Ty), vc, "k", nil) }); p {
+					mbt.Infra("spec gap: value class %s of %s cannot be built: %s", vc, c.Ops[i].Ty.String(), msg)
+				}
+				ms3 := append([]value.Value{}, ms2...)
+				ms3[i] = repl
+				u3, _, p := build(w2, c, ms3)
+				if p {
+					continue // the constructor rejects the constant (C03's subject)
+				}
+				want, _, _ := text(u3)
+				ops2 := u2.Operands()
+				if slotOf[i] >= len(ops2) || ops2[slotOf[i]] == nil {
+					continue
+				}
+				*ops2[slotOf[i]] = repl
+				got, msg, p := text(u2)
+				rep.Count("write-class:"+c.ID()+":"+c.Ops[i].Key()+":"+vc, true)
+				ck.classWrites++
+				if p {
+					ck.fail("C15|write|"+c.Kind+"|"+c.Ops[i].Role+"|print-panics", fmt.Sprintf("%s: LLString() panics after writing the %s constant %s through the slot of %s: %s", c.Kind, vc, repl.Ident(), c.Ops[i].Key(), msg), c)
+				} else if got != want {
+					ck.fail("C15|write|"+c.Kind+"|"+c.Ops[i].Role+"|text-differs", fmt.Sprintf("%s: after writing the %s constant %s through the slot of %s: got %q, want %q", c.Kind, vc, repl.Ident(), c.Ops[i].Key(), got, want), c)
+				}
+				ck.succsUnmoved(u2, c, ms2, i, repl, "the "+vc+" constant")
+			}
+		}
+	}
 	// successors
 	if t, ok := u.(ir.Terminator); ok {
 		ck.checkSuccs(t, c, w, ms, slotOf)
@@ -349,6 +483,50 @@ func (ck *checker) checkCase(c *schema.Case) {
 	// direct edits of the operand fields between calls of Operands() / Succs()
 	if c.Fam == "config" {
 		ck.checkEdits(c)
+	}
+}
+
+// vclassesOf: the value classes of a type, as the table says (Schema.tla, VClasses).
+func (ck *checker) vclassesOf(t *schema.Type) []string {
+	key := t.K
+	switch {
+	case t.K == "ptr" && t.AS != 0:
+		key = "ptras"
+	case t.K == "vec" && t.SC:
+		key = "svec"
+	case t.K == "arr" || t.K == "struct" || t.K == "named":
+		key = "agg"
+	}
+	return ck.tabs.VClasses[key]
+}
+
+// succsUnmoved: the successor list is independent of the operands that are not branch targets. u is a
+// user built from markers ms in which operand i has just been overwritten through its slot.
+func (ck *checker) succsUnmoved(u value.User, c *schema.Case, ms []value.Value, i int, repl value.Value, what string) {
+	t, ok := u.(ir.Terminator)
+	if !ok {
+		return
+	}
+	for _, s := range c.Succs {
+		if s-1 == i {
+			return // a target was written: checkSuccs
+		}
+	}
+	want := []*ir.Block{}
+	for _, s := range c.Succs {
+		want = append(want, ms[s-1].(*ir.Block))
+	}
+	var got []*ir.Block
+	if msg, p := mbt.Guard(func() { got = t.Succs() }); p {
+		ck.fail("C15|succs|"+c.Kind+"|panic-after-write", "Succs() panics after a write through a non-target slot: "+msg, c)
+		return
+	}
+	ck.rep.Count(fmt.Sprintf("succs-after-nontarget-write:%s:%s:%s", c.ID(), c.Ops[i].Key(), what), true)
+	if !sameBlocks(got, want) {
+		txt, _, _ := text(u)
+		ck.fail("C15|succs|"+c.Kind+"|depends-on-non-target-operand",
+			fmt.Sprintf("%s: after writing %s %s through the slot of %s (no branch target) Succs() = %s, but the branch targets are unchanged: %s; the instruction prints %q",
+				c.Kind, what, repl.Ident(), c.Ops[i].Key(), blockNames(got), blockNames(want), txt), c)
 	}
 }
 
